@@ -252,6 +252,7 @@ def run(run: common.Run):
                         model=[{k: str(v) for k, v in m.items()} for m in (model_stats or [])][:1]), 4)
     if run.only is None:
         near_identical_leg(run, tmp)
+        undefined_band_leg(run, tmp)
         big_count_leg(run, tmp)
     cli_json(run, tmp)
 
@@ -302,6 +303,64 @@ def near_identical_leg(run, tmp):
                 if row['n'] != int(jv.sum()) or not (abs(row['rmse'] - rmse) <= 2e-4 * rmse) or not (abs(row['rrmse'] - rr) <= 2e-4 * abs(rr)):
                     run.fail(case, f'band {b + 1}: N {row["n"]}, RMSE {row["rmse"]!r}, rRMSE {row["rrmse"]!r}; by definition over the '
                              f'{int(jv.sum())} jointly valid pixels {rmse!r}, {rr!r}', signature=dict(kind='stat-def', op='near-identical'))
+                    break
+
+
+def undefined_band_leg(run, tmp):
+    """
+    Bands whose statistics are undefined - a source band without a single valid pixel (N = 0), a band that is constant in both
+    images (r2 = 0/0) - beside ordinary bands: the per-band rows report N by definition, and "Mean" is the band average of the
+    rows as reported, which is undefined wherever one of its terms is (not the average of the defined terms, nor their sum over
+    the number of bands).  Same grid for both images, three block partitions.
+    """
+    from homonim import RasterCompare
+    u = 8
+    g = rasters.Grid(u * 6000, u * 9000, 2 * u, 2 * u, 24, 20)
+    for k, kind in enumerate(('empty source band', 'constant band', 'empty reference band')):
+        rng = run.rng(f'undef{k}')
+        s = np.array([[[rng.randint(1, 60) for _ in range(g.w)] for _ in range(g.h)] for _ in range(3)], float)
+        r = s + np.array([[[rng.randint(-3, 3) for _ in range(g.w)] for _ in range(g.h)] for _ in range(3)], float)
+        sv = np.ones((g.h, g.w), bool)
+        rv = np.ones((g.h, g.w), bool)
+        sv[:2, :4] = False
+        jn = [int(sv.sum())] * 3
+        if kind == 'empty source band':
+            s[1] = -9999.0
+            jn[1] = 0
+        elif kind == 'empty reference band':
+            r[2] = -9999.0
+            jn[2] = 0
+        else:
+            s[0], r[0] = 7.0, 9.0
+        pair = fusion.write_pair(tmp, f'c11undef{k}', g, g, s, r, sv, rv, src_nodata=-9999.0, ref_nodata=-9999.0)
+        for mbm, th in ((100, 1), (2e-3, 2), (5e-4, 1)):
+            case = dict(i=800_000 + 10 * k + int(th) + (0 if mbm == 100 else 3), op='band with undefined statistics', kind=kind,
+                        max_block_mem=mbm, threads=th)
+            try:
+                with warnings.catch_warnings():
+                    warnings.simplefilter('ignore')
+                    with RasterCompare(pair.src_path, pair.ref_path) as cmp:
+                        st = cmp.process(threads=th, max_block_mem=mbm)
+            except Exception as ex:
+                from homonim.errors import BlockSizeError
+                if not isinstance(ex, BlockSizeError):
+                    run.fail(case, f'compare raised {type(ex).__name__}: {ex}', signature=dict(kind='raises', op='undefined-band'))
+                continue
+            run.evaluations += 1
+            run.hist['pairs with a band of undefined statistics'] += 1
+            run.nontrivial.add(('undef', k, mbm))
+            rows = [v for kk, v in st.items() if kk != 'Mean']
+            if [row['n'] for row in rows] != jn:
+                run.fail(case, f'N per band {[row["n"] for row in rows]}, jointly valid pixels per band {jn}',
+                         signature=dict(kind='n-def', op='undefined-band'))
+                continue
+            mean = st['Mean']
+            for key in ('r2', 'rmse', 'rrmse'):
+                exp = sum(row[key] for row in rows) / len(rows)
+                same = (math.isnan(exp) and math.isnan(mean[key])) or exp == mean[key] or abs(mean[key] - exp) <= 1e-9 * max(1.0, abs(exp))
+                if not same:
+                    run.fail(case, f'"Mean" {key} = {mean[key]!r} is not the band average {exp!r} of {[row[key] for row in rows]}',
+                             signature=dict(kind='mean-row', op='undefined-band'))
                     break
 
 
